@@ -84,7 +84,8 @@ class Registry:
         self.exc_representatives: list[str] = []
         self.assumptions: list[str] = []
         self.lemmas: list[Any] = []
-        self.groups: dict[str, list[str]] = {}  # property id -> contract keys verified for it
+        self.groups: dict[str, list[str]] = {}
+        self.symbolic_consts: dict[str, str] = {}  # property id -> contract keys verified for it
         self._file: str | None = None
 
     # ------------------------------------------------------------ sidecar API
@@ -174,6 +175,10 @@ class Registry:
 
     def external(self, name: str, target: str) -> None:
         self.external_map[name] = target
+
+    def symbolic_const(self, key: str, type_: str) -> None:
+        """A module-level constant computed at import time (sysconf, platform): treated as an unknown of the given type."""
+        self.symbolic_consts[key] = type_
 
     def ghost(self, **fields: str) -> None:
         self.ghost_fields.update(fields)
